@@ -293,7 +293,7 @@ def multicall(ctx, c, rng):
 
 def run(ctx):
     rng = ctx.rng
-    per = ctx.pick(300, 15000)
+    per = ctx.pick(1500, 15000)
     for ci, cell in enumerate(CELLS):
         if not ctx.mine(ci):
             continue
